@@ -154,8 +154,12 @@ int main(void) {
                 if (r) printf("true"); else printf("fail %s", ename(e));
             } else if (!strcmp(op, "clear")) { qhashtbl_clear(t); printf("ok");
             } else if (!strcmp(op, "size")) { printf("num %zu", qhashtbl_size(t));
-            } else if (!strcmp(op, "walk")) {
+            } else if (!strcmp(op, "walk") || !strcmp(op, "walkget")) {
+                /* walkget <n> <key>: the same walk with a read of <key> (get with a copy, getstr without) after every step:
+                   reads do not modify the table, so the walk must come out exactly the same */
                 qhashtbl_obj_t o; memset(&o, 0, sizeof o); int n = atoi(a1), ended = 0, first = 1;
+                char *rk = NULL; size_t rkn = 0;
+                if (op[4]) { rkn = unhex(a2, b2); rk = dupstr(b2, rkn); }
                 static char buf[1 << 22]; size_t bl = 0; buf[0] = 0;
                 for (int i = 0; i < n; i++) {
                     errno = 0;
@@ -171,7 +175,9 @@ int main(void) {
                     bl += ftell(m); fclose(m);
                     scribble_free(o.name, strlen(o.name) + 1); scribble_free(o.data, o.size);
                     /* o.name keeps its (now dangling) non-NULL value: getnext only tests it against NULL */
+                    if (rk) { size_t sz = 0; void *d = qhashtbl_get(t, rk, &sz, true); if (d) scribble_free(d, sz); (void)qhashtbl_getstr(t, rk, false); }
                 }
+                if (rk) scribble_free(rk, rkn + 1);
                 printf("walk %s %s", ended == 1 ? "end" : ended == 2 ? "end-without-ENOENT" : ended == 3 ? "end-then-another-entry" : "more", buf);
             } else printf("?? %s", op);
             QV_END;
